@@ -12,6 +12,7 @@ import (
 	"crypto/tls"
 	"crypto/x509"
 	"crypto/x509/pkix"
+	"encoding/pem"
 	"math/big"
 	"strings"
 	"encoding/json"
@@ -60,6 +61,8 @@ type Config struct {
 	ChownGID      bool   `json:"chown_gid,omitempty"`
 	Health        string `json:"health,omitempty"`
 	TLS           bool   `json:"tls,omitempty"` // serve HTTPS with a throw-away self-signed certificate
+	CertOut       string `json:"cert_out,omitempty"` // where to write that certificate (PEM), so clients can trust it
+	Env           map[string]string `json:"env,omitempty"` // extra environment of the gateway process
 
 	HookLog  string `json:"hook_log,omitempty"`  // ndjson file of hook hits
 	GateSock string `json:"gate_sock,omitempty"` // unix socket of the schedule controller
@@ -272,7 +275,8 @@ func selfSigned() (tls.Certificate, error) {
 	}
 	tmpl := &x509.Certificate{SerialNumber: big.NewInt(1), Subject: pkix.Name{CommonName: "127.0.0.1"},
 		NotBefore: time.Now().Add(-time.Hour), NotAfter: time.Now().Add(24 * time.Hour),
-		KeyUsage: x509.KeyUsageDigitalSignature, ExtKeyUsage: []x509.ExtKeyUsage{x509.ExtKeyUsageServerAuth},
+		KeyUsage: x509.KeyUsageDigitalSignature | x509.KeyUsageCertSign, ExtKeyUsage: []x509.ExtKeyUsage{x509.ExtKeyUsageServerAuth},
+		IsCA: true, BasicConstraintsValid: true,
 		IPAddresses: []net.IP{net.ParseIP("127.0.0.1")}}
 	der, err := x509.CreateCertificate(rand.Reader, tmpl, tmpl, &key.PublicKey, key)
 	if err != nil {
@@ -310,6 +314,9 @@ func RunGwd(arg string) int {
 		if err != nil {
 			fmt.Fprintln(os.Stderr, "gwd: cert:", err)
 			return 2
+		}
+		if cfg.CertOut != "" {
+			os.WriteFile(cfg.CertOut, pem.EncodeToMemory(&pem.Block{Type: "CERTIFICATE", Bytes: cert.Certificate[0]}), 0o644)
 		}
 		ln = tls.NewListener(ln, &tls.Config{Certificates: []tls.Certificate{cert}})
 	}
